@@ -275,10 +275,12 @@ def run_fuzz(case):
                     actions_log.append("put")
                     ep.put(w.put_request())
                 elif act == "put":
-                    pk = rng.choice(["same", "empty", "md_only", "missing"])
+                    pk = rng.choice(["same", "empty", "md_only", "missing", "unknown_dest"])
                     actions_log.append("put:" + pk)
                     if pk == "same":
                         req = w.put_request()
+                    elif pk == "unknown_dest":
+                        req = PutRequest(ByteFieldGenerator.from_int(2, 77), w.src_path, w.dst_req_path, None, None)
                     elif pk == "md_only":
                         req = PutRequest(w.dst_id, None, None, None, None)
                     else:
